@@ -40,6 +40,11 @@ func register(id string, needSSA bool, run func(*Ctx)) {
 	registry[id] = &PropSpec{ID: id, NeedSSA: needSSA, Run: run}
 }
 
+var extraRules = map[string][]func(*Ctx){}
+
+// registerExtra adds rules (written after a check was integrated) to a property's run.
+func registerExtra(id string, f func(*Ctx)) { extraRules[id] = append(extraRules[id], f) }
+
 func init() {
 	register("C02", false, runC02)
 	register("C11", false, runC11)
@@ -116,6 +121,9 @@ func main() {
 			}
 		}()
 		spec.Run(c)
+		for _, f := range extraRules[spec.ID] {
+			f(c)
+		}
 	}()
 	os.Exit(c.finishMaybe(start, onlyKey, cmdline, *noEvidence))
 }
